@@ -14,7 +14,7 @@ from mc import env
 from mc.core import Res
 from mc import targets
 from mc.tape import OwnedRandom
-from mc.pipeline import Probe
+from mc.pipeline import Probe, UserFailure
 
 LEVEL = "model_checking"
 RULE = ("executions = all sequences of -inf masks (m_1..m_W) in ({0,1}^n)^W for n in {2,3,4}, W in {1..4} (W forced through ess_ratio), x all "
@@ -35,7 +35,7 @@ def run_masks(case):
     res = Res()
     n, W, slope = case["n"], case["W"], case["slope"]
     ratio = {1: 0.5, 2: 1.0, 3: 2.0, 4: 3.0}[W]
-    seqs = itertools.product(itertools.product([0, 1], repeat=n), repeat=W)
+    seqs = itertools.product(itertools.product([0, 1], repeat=n), repeat=W + (1 if case.get("fail") else 0))  # a retried batch consumes one more mask
     if case.get("only"):
         seqs = [tuple(tuple(m) for m in case["only"])]
     first_mask = case.get("first_mask")
@@ -64,9 +64,18 @@ def _one(res, case, n, W, ratio, slope, ms, ans):
     anneal = case.get("anneal", 0)
     hole = targets.Hole(F, slope=slope)
     p = Probe(cfg)
-    p.ll.f = hole  # instrumented likelihood evaluates the hole target
     beta0_iter = [0]
-    rec = {"logz0": [], "first_pos": None, "neg_inf": None, "choice_calls": 0, "draws": {}}
+    rec = {"logz0": [], "first_pos": None, "neg_inf": None, "choice_calls": 0, "draws": {}, "aborted": set(), "calls_in_iter": {}}
+    fail = case.get("fail")  # [t, j]: the user's likelihood raises at its j-th call of sampler iteration t (once); the iteration is then retried
+
+    def user_ll(x):
+        c = rec["calls_in_iter"][p.iters] = rec["calls_in_iter"].get(p.iters, 0) + 1
+        if fail and not rec["aborted"] and p.iters == fail[0] and c == fail[1]:
+            rec["aborted"].add(p.iters)
+            raise UserFailure(f"transient failure at call {c} of iteration {p.iters}")
+        return hole(x)
+
+    p.ll.f = user_ll  # instrumented likelihood evaluates the hole target
 
     def h_rand(t, *a, **k):
         if a == (n,) and anneal:
@@ -108,15 +117,21 @@ def _one(res, case, n, W, ratio, slope, ms, ans):
             rec["first_pos"] = (float(cur["beta"]), float(cur["logz"]), ev.iter)
 
     p.monitors.append(mon)
-    p.steps(W + 1 + anneal)
+    p.steps(W + 1 + anneal, retry_on=UserFailure if fail else None)
     res.evals += 1
     res.states += p.events
     res.trans += p.events
     cc = {"kind": "masks", "n": n, "W": W, "slope": slope, "only": [list(m) for m in ms], "answers": False, "variant": variant, "anneal": anneal}
     label = f"n={n} W={W} masks={[''.join(map(str, m)) for m in ms]}"
+    if fail:
+        cc["fail"] = list(fail)
+        label += f", likelihood raised once at its call {fail[1]} of iteration {fail[0]} and the iteration was retried" if rec["aborted"] else ""
+        res.bump("failure_injected" if rec["aborted"] else "failure_point_not_reached")
+        for it in rec["aborted"]:
+            rec["draws"].pop(it, None)  # draws of the aborted attempt belong to no stored batch
     all_inf = any(all(m) for m in ms)
     nontriv = any(any(m) for m in ms)
-    res.outcome((n, W, slope, ms, ans), nontrivial=nontriv)
+    res.outcome((n, W, slope, ms, ans) + ((tuple(fail),) if fail else ()), nontrivial=nontriv)
     if all_inf:
         k = [i for i, m in enumerate(ms) if all(m)][0]
         if rec["neg_inf"] is not None or (p.exc is not None and beta0_iter[0] <= W):
@@ -195,6 +210,11 @@ def plan(ctx):
         for slope in (0.3, 300.0):
             for fm in itertools.product([0, 1], repeat=n):
                 cases.append({"kind": "masks", "n": n, "W": W, "slope": slope, "answers": False, "anneal": 3 if th else 2, "first_mask": list(fm)})
+    for (n, W) in ((2, 1), (2, 2), (3, 1)) + (((3, 2), (4, 1), (2, 3)) if th else ()):
+        for t in range(1, W + 2):
+            for j in range(1, 2 * n + 1):
+                cases.append({"kind": "masks", "n": n, "W": W, "slope": 0.0 if (t + j) % 2 else 0.3, "answers": False, "fail": [t, j]})
+    ctx.bounds["failure_points"] = "every (iteration t <= W+1, likelihood call j <= 2n) x every mask sequence; (n,W) in {(2,1),(2,2),(3,1)} quick, + (3,2),(4,1),(2,3) thorough"
     ctx.bounds.update({"n_particles": [2, 3, 4], "warmup_iterations": [1, 2, 3, 4], "mask_sequences_max": 65536 if th else 4096, "supported_fraction": F})
     ctx.explore("mask-sequences", cases)
     ctx.res.sample({"n": 3, "W": 2, "masks": ["010", "100"], "expected_logZ_interval": [math.log(2 / 3), math.log(2 / 3)]})
